@@ -1,6 +1,7 @@
 """C03 - target groups are a valid dependency layering of every acyclic configuration."""
 import graphs
-THEOREMS = [("Properties.C03", "C03_holds"), ("Properties.C03", "C03_index_holds"), ("Properties.C03", "C03_prune_holds"), ("AsFound.C03", "C03_as_found_refuted")]
+THEOREMS = [("Properties.C03", "C03_holds"), ("Properties.C03", "C03_index_holds"), ("Properties.C03", "C03_prune_holds"), ("AsFound.C03", "C03_as_found_refuted"),
+            ("Harness.OracleProof", "valid_layering_b_iff"), ("Harness.OracleProof", "valid_pruned_b_iff"), ("Harness.OracleProof", "cyclic_b_iff")]
 CORRESPONDENCE = "Dag::set_subtree_visibility + get_labeled_groups / Index::new / analyze pruning == Model.Dag.api_groups, Harness.Glue.model_index_groups"
 LEVEL_NOTE = ("Coq theorem C03_holds (graph level, unbounded): for every well-formed adjacency list and root set from which no cycle is "
               "reachable, the model of set_subtree_visibility* + get_labeled_groups returns Ok with groups that are duplicate-free, cover exactly "
@@ -8,7 +9,7 @@ LEVEL_NOTE = ("Coq theorem C03_holds (graph level, unbounded): for every well-fo
               "in-degree invariant of Kahn's algorithm and the BFS-marks-the-closure lemma; no fuel exhaustion, no usize underflow). "
               "Tied to src/core/graph.rs, Index::new and the pruning loop of analyze by hooks verif::dag_groups / index_groups / analyze.")
 TRUSTED = ["Coq 8.16.1 kernel; no axioms (closed under the global context)",
-           "extraction (ExtrOcamlBasic) + ocaml/vmodel.ml; Harness/Glue.v decoders and the decidable oracles valid_layering_b, valid_pruned_b, cyclic_b (not proved equivalent to the Props)",
+           "extraction (ExtrOcamlBasic) + ocaml/vmodel.ml; Harness/Glue.v decoders; the decidable oracles valid_layering_b, valid_pruned_b and cyclic_b are proved equivalent to valid_layering / valid_pruned / cyclic_from (Harness/OracleProof.v), so the specification verdict computed on the implementation's output is the Prop-level statement",
            "hooks src/verif.rs; HashMap/HashSet/VecDeque of the Rust std lib modelled as lists",
            
            "modelled, not verified: the Rust source itself"]
